@@ -16,7 +16,7 @@ package oidc
 
 import (
 	"context"
-	"math/rand"
+	"crypto/rand"
 	"time"
 
 	"github.com/redis/go-redis/v9"
@@ -147,9 +147,7 @@ var (
 
 type (
 	// randomGenerator is a session generator that uses random strings.
-	randomGenerator struct {
-		rand *rand.Rand
-	}
+	randomGenerator struct{}
 
 	// staticGenerator is a session generator that uses static strings.
 	staticGenerator struct {
@@ -162,9 +160,7 @@ type (
 
 // NewRandomGenerator creates a new random session generator.
 func NewRandomGenerator() SessionGenerator {
-	return &randomGenerator{
-		rand: rand.New(rand.NewSource(time.Now().UnixNano())),
-	}
+	return &randomGenerator{}
 }
 
 func (r randomGenerator) GenerateSessionID() string {
@@ -185,9 +181,19 @@ func (r randomGenerator) GenerateCodeVerifier() string {
 
 func (r *randomGenerator) generate(n int) string {
 	const charset = "abcdefghijklmnopqrstuvwxyzABCDEFGHIJKLMNOPQRSTUVWXYZ0123456789"
-	b := make([]byte, n)
-	for i := range b {
-		b[i] = charset[r.rand.Intn(len(charset))]
+	// Session ids, nonces and states are security tokens: every character is drawn from the
+	// operating system's CSPRNG. Bytes at or above the largest multiple of the charset size are
+	// discarded (rejection sampling) so that all the characters are equally likely.
+	const limit = 256 - 256%len(charset)
+	var (
+		b    = make([]byte, 0, n)
+		next [1]byte
+	)
+	for len(b) < n {
+		_, _ = rand.Read(next[:]) // never returns an error, see the crypto/rand documentation
+		if int(next[0]) < limit {
+			b = append(b, charset[int(next[0])%len(charset)])
+		}
 	}
 	return string(b)
 }
